@@ -212,7 +212,7 @@ def gen_compute_case(rng, maxpix=48, force=None):
     case['reuse'] = rng.random() < 0.3
     # how the numeric parameters are spelled: Python numbers, numpy scalars, or a fractional min_npix
     # (min_npix = n - 0.5 demands the same as n: "at least n pixels")
-    case['pstyle'] = rng.choices(['py', 'np', 'half'], weights=[75, 15, 10])[0]
+    case['pstyle'] = rng.choices(['py', 'np', 'half', 'omit'], weights=[55, 15, 10, 20])[0]
     if 'layout' not in force:
         case['layout'] = rng.choices(['C', 'F', 'strided', 'readonly', 'bigendian'], weights=[66, 14, 9, 5, 6])[0]
     if kind in ('fullrange', 'decimal'):
